@@ -2,7 +2,7 @@
 # usage: regress_seeded.sh [id ...]      (default: every directory under seeded/)
 # Applies each seeded change to a scratch worktree of /repo's HEAD (tools/try_mutant.sh) and runs the quick check of its
 # property (and of the properties named in seeded/<id>/also_check when the first one holds).  One line per change:
-#   <id> CAUGHT by <PROP> <first violation key> | MISSED | NOAPPLY (the patch no longer applies to this head)
+#   <id> CAUGHT by <PROP> <first violation key> | MISSED | MASKED: <why> | NOAPPLY (the patch no longer applies to this head)
 cd "$(dirname "$0")/.."
 ids="$*"; [ -z "$ids" ] && ids=$(ls seeded)
 for id in $ids; do
@@ -16,5 +16,8 @@ for id in $ids; do
     if echo "$out" | grep -q "^exit=1"; then res="CAUGHT by $q $(echo "$out" | grep -m1 'key:' | sed 's/^ *key: //')"; break; fi
     if echo "$out" | grep -q "^exit=2"; then res="HARNESS-ERROR in $q"; fi
   done
+  # a change whose defect can no longer be reached through the public API on this head (e.g. a later fix: commit put a
+  # check in front of the weakened one) is reported as such when no check fires
+  if [ "$res" = MISSED ] && [ -f $d/masked_by ]; then res="MASKED: $(cat $d/masked_by)"; fi
   echo "$id $res"
 done
